@@ -8,7 +8,9 @@ interfaces + equality (provides-declarations, carrying objects), and no definiti
 from .. import core, runner
 from . import c03
 
-THEOREMS = ["ZI.Pickle.C13_implements", "ZI.Pickle.inv_run", "ZI.Pickle.inv_step", "ZI.Pickle.C13_pinned_violates", "ZI.Pickle.C13_names_only"]
+THEOREMS = ["ZI.Pickle.C13_implements", "ZI.Pickle.inv_run", "ZI.Pickle.inv_step", "ZI.Pickle.C13_pinned_violates", "ZI.Pickle.C13_names_only",
+            # instance declarations over all declaration histories (ZI/Props/C13Hist.lean, on ZI.Classes2)
+            "ZI.C13H.C13_provides_same", "ZI.C13H.C13_unpickle_same", "ZI.C13H.C13_provides_identical"]
 KNOWN_SIG = "classprovides-unpickle-not-equal"
 
 
